@@ -689,13 +689,19 @@ struct Exec
                 bool wd = false;
                 ob::PlannerTerminationCondition ptc([&]() {
                     ++evals;
-                    update([&] { ++ptcEvals; });
+                    bool quiescent = false;
+                    update([&] {
+                        ++ptcEvals;
+                        quiescent = samplerEnded;
+                    });
                     if (plan.fireAt > 0 && ptcEvals >= plan.fireAt)
                         ptcFlag = true;
                     if (ptcFlag)
                         return true;
-                    // logical watchdog: the sampler is over and the call still polls
-                    if (!goal->isSampling() && ++evalsAfterEnd > 6)
+                    // logical watchdog (no clock): the sample function has returned false or stopSampling()
+                    // has joined the thread - the list is final - and the call still polls: a correct
+                    // nextGoal() needs at most three more evaluations unless it is in the documented wait
+                    if (quiescent && !goal->isSampling() && ++evalsAfterEnd > 6)
                     {
                         wd = true;
                         return true;
@@ -751,8 +757,9 @@ static Plan makePlan(vt::Rng &rng, int idx)
     p.stopAfter = rng.below(3) == 0 ? rng.below(n + 1) : -1;
     switch (idx)
     {
-        case 0:  // sampler stops without producing, ptc never fires: null, no infinite wait
-            p.script.clear();
+        case 0:  // the planner waits, then the sampler stops without producing; ptc never fires: null, no infinite wait
+            p.script = {{1, false, false, 2}};
+            p.minDist = 0;
             p.calls = 2;
             p.callGate = {0, 0};
             p.fireAt = 0;
